@@ -428,23 +428,27 @@ void SyntaxTree::newDiagnostic(DiagnosticDescriptor descriptor,
     FileLinePositionSpan line(P->filePath_, start, end);
     std::string snippet;
 
-    auto it = std::lower_bound(P->startOfLineOffsets_.begin(), P->startOfLineOffsets_.end(), tk.charStart());
-    if (it != P->startOfLineOffsets_.begin()) {
-        --it;
-
-        auto lineBegIt = P->text_.rawText().begin() + *it;
-        auto lineCurIt = lineBegIt;
-        while (lineCurIt != P->text_.rawText().end()) {
-            if (*lineCurIt == '\n')
-                break;
-            ++lineCurIt;
-        }
-
-        snippet.assign(lineBegIt, lineCurIt);
-        std::string marker(start.character(), ' ');
-        marker += '^';
-        snippet += "\n" + marker + "\n";
+    // The excerpt is the physical line holding the token: skip as many line
+    // breaks as lines precede it (line starts are kept in characters, while
+    // the raw text is indexed in bytes).
+    auto lineBegIt = P->text_.rawText().begin();
+    for (auto precedingLines = searchForLineno(tk.charStart());
+            precedingLines && lineBegIt != P->text_.rawText().end();
+            ++lineBegIt) {
+        if (*lineBegIt == '\n')
+            --precedingLines;
     }
+    auto lineCurIt = lineBegIt;
+    while (lineCurIt != P->text_.rawText().end()) {
+        if (*lineCurIt == '\n')
+            break;
+        ++lineCurIt;
+    }
+
+    snippet.assign(lineBegIt, lineCurIt);
+    std::string marker(start.character(), ' ');
+    marker += '^';
+    snippet += "\n" + marker + "\n";
 
     P->diagnostics_.emplace_back(descriptor, Location::create(line), snippet);
 }
